@@ -966,7 +966,7 @@ def oracle(ctx, scale):
             if sysk == "pt":
                 c["m"] = 2
         cases.append(c)
-    for it in range(ctx.n(5, 40) * scale):
+    for it in range(ctx.n(4, 40) * scale):
         m, touch = rng.choice([(2, 2), (2, 2), (2, 3), (3, 2), (2, 1), (3, 1), (4, 1)])
         kr = rng.random() < 0.5
         n0 = rng.randint(touch, touch + 1)
@@ -975,7 +975,7 @@ def oracle(ctx, scale):
         cases.append(dict(kind="options", seed=rng.getrandbits(31), n0=n0, m=m, touch=touch, paired=rng.random() < 0.5,
                           kramers=kr, degen_thresh=rng.choice([1e-4, 1e-3, 0.05]), k0=rng.choice(K0S), G=rand_G(rng),
                           run=(it % 4 == 0 if ctx.tier == "thorough" else it == 0)))
-    for it in range(ctx.n(4, 30) * scale):
+    for it in range(ctx.n(3, 30) * scale):
         delta = rng.choice([0.0, 2e-5, 5e-5, 5e-5])
         cases.append(dict(kind="sea_gauge", seed=rng.getrandbits(31), nw=rng.randint(3, 5), m=rng.choice([2, 2, 3]),
                           delta=delta, where=rng.choice(["between", "at_lower", "at_upper", "quarter"]),
